@@ -47,6 +47,9 @@ class SyncEngine(BaseEngine):
         """
         if not self._rtc:
             # The machine is in "synchronous" mode
+            if not self._external_queue:
+                # nothing to do, e.g. activating a machine that already has a state
+                return None
             trigger_data = self._external_queue.popleft()
             return self._trigger(trigger_data)
 
